@@ -18,7 +18,7 @@ RULE = ("level 1: a stream of 1..4 V3 packets (payload sizes 0..40 exhaustive pa
         "biased to contain 8370/83; optional marker-free garbage before any packet) is fed to a fresh _LanProtocolV3.data_received "
         "in chunks; after each chunk the receive queue is drained and must contain exactly the packets whose last byte lies in "
         "that chunk, in order, byte-identical. All cut sets of size <= 3 exhaustively for short streams, random cut sets, "
-        "byte-by-byte, single chunk. level 2: LAN.send on an authenticated connection; send must return at the virtual time of "
+        "byte-by-byte, single chunk; in a quarter of the cases another protocol object of the same process was left with an unfinished packet or junk beforehand. level 2: LAN.send on an authenticated connection; send must return at the virtual time of "
         "the chunk carrying the last byte of the first packet and two sends together return the device's frame sequence. "
         "Non-trivial: a cut strictly inside a packet header, or >=2 packets in one chunk, or garbage present, or payload contains "
         "the marker. Distinct by (stream, cuts).")
@@ -75,6 +75,13 @@ def check_level1(case: dict):
         def is_closing(self):
             return False
 
+    other = None
+    if case.get("other"):
+        # another connection of the same process (e.g. the previous, dropped one) still holds an unfinished packet / junk
+        other = _LanProtocolV3()
+        other.connection_made(_T())
+        other.data_received(bytes.fromhex(case["other"]))
+        _drain(other)
     proto = _LanProtocolV3()
     proto.connection_made(_T())
     delivered = 0
@@ -241,6 +248,8 @@ def run(ctx) -> None:
             if not ctx.mine(total):
                 continue
             case = dict(base, cuts=list(cuts))
+            if total % 4 == 0:
+                case["other"] = ["8370002020030000aabbcc", "83", "0011223344", "837000ff2003" + "00" * 40][(total // 4) % 4]
             ctx.check(case, lambda c: _run_l1(ctx, c))
         # byte by byte
         case = dict(base, cuts=list(range(1, L)))
@@ -261,8 +270,9 @@ def run(ctx) -> None:
         return items
 
     streams = st.lists(item, min_size=1, max_size=4).map(fix_items)
-    l1_cases = st.builds(lambda items, cuts, mode: {"items": items, "cuts": cuts if mode != "bytes" else list(range(1, min(3000, sum(len(i["body"]) // 2 + len(i["garbage"]) // 2 + 8 for i in items)))), "level": 1},
-                         streams, st.lists(st.integers(1, 6000), max_size=12, unique=True).map(sorted), st.sampled_from(["cuts", "cuts", "cuts", "bytes", "one"]))
+    others = st.sampled_from([None, None, "8370002020030000aabbcc", "83", "0011223344", "837000ff2003" + "00" * 40, "8370"])
+    l1_cases = st.builds(lambda items, cuts, mode, other: {"other": other, "items": items, "cuts": cuts if mode != "bytes" else list(range(1, min(3000, sum(len(i["body"]) // 2 + len(i["garbage"]) // 2 + 8 for i in items)))), "level": 1},
+                         streams, st.lists(st.integers(1, 6000), max_size=12, unique=True).map(sorted), st.sampled_from(["cuts", "cuts", "cuts", "bytes", "one"]), others)
 
     ctx.hyp("l1-random", l1_cases, lambda c: _run_l1(ctx, c), ctx.n(3000, 320000))
 
